@@ -18,9 +18,12 @@ from pathlib import Path
 
 VERIF = Path(__file__).resolve().parent.parent
 SPEC = VERIF / "spec"
-EVIDENCE = VERIF / "evidence"
-REPLAY = VERIF / "replay"
-RUN = VERIF / ".run"
+# VERIF_OUT redirects evidence / replay / run directories (used by tools/seedtest.sh so that runs against a patched
+# worktree do not overwrite the evidence of the unchanged tree); the registered commands never set it.
+_OUT = Path(os.environ["VERIF_OUT"]) if os.environ.get("VERIF_OUT") else VERIF
+EVIDENCE = _OUT / "evidence"
+REPLAY = _OUT / "replay"
+RUN = _OUT / ".run"
 REPO = Path("/repo")
 JAVA_CP = "/opt/veriftools/tla/tla2tools.jar:/opt/veriftools/tla/CommunityModules-deps.jar"
 GUARD = "GRAPHQL_CORE_VERIF"
